@@ -13,7 +13,7 @@ import (
 func init() {
 	register(&Property{
 		ID: "C12",
-		Explanation: "Pattern safety and ancestry guard of recursive remove/rename, decided from the source: (like-safety) every SQL predicate `like ?` issued by pkg/persisters whose bound argument derives from a caller-supplied name is either escaped (an `escape` clause plus an escaping function) or every row leaving the function is filtered in Go by strings.HasPrefix(row name, the literal prefix) - must-dataflow from the query to the append that builds the result; (ancestry-guard) in STFS.Rename every path to the move is across an error-returning branch whose condition relates oldname and newname by a prefix/relative-path test, not mere equality; (subtree-coverage) in Operations.Delete/Move the descendant lookup is called with the operation's own name when the entry is a directory and all rows returned join the slice the write loop ranges over.",
+		Explanation: "Pattern safety and ancestry guard of recursive remove/rename, decided from the source: (like-safety) every SQL predicate `like ?` issued by pkg/persisters whose bound argument derives from a caller-supplied name has every row leaving the function filtered in Go by strings.HasPrefix(row name, the literal prefix) (an ESCAPE clause alone is not enough: LIKE ignores ASCII case) - must-dataflow from the query to the append that builds the result; (ancestry-guard) in STFS.Rename every path to the move is across an error-returning branch whose condition relates oldname and newname by a prefix/relative-path test, not mere equality; (subtree-coverage) in Operations.Delete/Move the descendant lookup is called with the operation's own name when the entry is a directory and all rows returned join the slice the write loop ranges over.",
 		NotDecided:  "What SQLite's LIKE matches for a given tree, the textual prefix trimming of Move for odd names, symlink rows.",
 		Assumptions: []string{"strings.HasPrefix is the literal-prefix test; names in the index use '/' separators"},
 		Rules:       []func(*Ctx){ruleC12LikeSafety, ruleC12AncestryGuard, ruleC12SubtreeCoverage},
@@ -109,10 +109,8 @@ func ruleC12LikeSafety(c *Ctx) {
 		n++
 		construct := fmt.Sprintf("like#%d", n)
 		info := root.Pkg.TypesInfo
-		if strings.Contains(strings.ToLower(q.text), " escape ") {
-			c.ok(rule, root, construct, q.call.Pos(), true, "predicate carries an ESCAPE clause")
-			continue
-		}
+		// an ESCAPE clause neutralises '_' and '%' but SQLite's LIKE still ignores ASCII case, so the literal-prefix
+		// re-check in Go is required either way
 		// Go-side filter: every append that builds the returned slice is guarded by strings.HasPrefix(<row>.Name, ...)
 		var retSlice types.Object
 		for _, ret := range returnsIn(root) {
